@@ -155,8 +155,8 @@ def correspond(run: lib.Run):
     if not os.path.exists(os.path.join(run.build, "GenFutureGenerics.vo")):
         run.record_corr("future", 1, [{"error": "reflected table did not compile"}], 0, {})
         return
-    n_ann = run.budget(3500, 60000)
-    n_non = run.budget(900, 12000)
+    n_ann = run.budget(3500, 40000)
+    n_non = run.budget(900, 8000)
     maxd = run.budget(4, 5)
     inputs, dist = gen_inputs(run.rng, n_ann, n_non, maxd, run.budget(4, 5))
     cases, coq, bad = [], [], []
@@ -289,9 +289,9 @@ def search(run: lib.Run, broken):
     todo += list(getattr(run, "_c20_inputs", []))
     if not getattr(run, "_c20_inputs", None):
         todo += gen_inputs(rng, 1500, 400, 4, 4)[0]
-    extra = run.budget(1500, 40000)
+    extra = run.budget(1500, 24000)
     if broken:
-        extra = max(extra, run.budget(6000, 40000))
+        extra = max(extra, run.budget(6000, 24000))
     todo += gen_inputs(rng, extra, extra // 4, run.budget(4, 5), 3)[0]
     seen = set()
     for s, a in todo:
